@@ -61,6 +61,24 @@ func c18Run(x *core.Ctx) {
 	rn := &model.Renderer{}
 	for i := 0; i < ns; i++ {
 		sc := c08MakeSchema(r, i)
+		if i%3 == 0 {
+			// a document with far more errors than any cap on a list of errors someone might think of (60-150 from each of
+			// three rules): the errors of the set are still the union of the errors of its members
+			n := 60 + r.Intn(90)
+			var b strings.Builder
+			b.WriteString("query Many(")
+			for k := 0; k < n; k++ {
+				fmt.Fprintf(&b, "$unused%d: Int ", k)
+			}
+			b.WriteString(") { ")
+			for k := 0; k < n; k++ {
+				fmt.Fprintf(&b, "nope%d ...Missing%d ", k, k)
+			}
+			b.WriteString("}")
+			cm := core.NewCase("pair", "schema", sc.src, "doc", b.String(), "subset-seed", fmt.Sprint(r.Uint64()%1000000))
+			x.Do(cm, func() { c18Check(x, cm) })
+			x.Count("many_error_documents")
+		}
 		for j := 0; j < 8; j++ {
 			g := dgen.New(r, sc.mg, &dgen.Opts{MaxDepth: 1 + r.Intn(3), MaxOps: 1 + r.Intn(3), Introspect: j%3 == 0})
 			doc := g.Doc()
